@@ -9,6 +9,8 @@ import YadismModel.Model.Combiner
 import YadismModel.Model.Compat
 import YadismModel.Model.Orders
 import YadismModel.Model.XS
+import YadismModel.Model.ApplyPdf
+import YadismModel.Model.Serialize
 
 open Yadism Yadism.Proto
 
@@ -135,6 +137,68 @@ def rdSv : RdM String := do
       (((List.range 14).map fun a => (List.range n).map fun j => showRat (tensorEntry all k a j)).flatten)
   pure (" | ".intercalate ((keys ++ extra.eraseDups).map showKey))
 
+def tab (rows cols : Nat) (l : List Rat) : Nat → Nat → Rat := fun a j =>
+  if a < rows ∧ j < cols then l.getD (a * cols + j) 0 else 0
+
+def rdApplyPdf : RdM String := do
+  let as ← rat; let aem ← rat; let LR ← rat; let LF ← rat
+  let npid ← nat; let ngrid ← nat
+  let mut hs : List Bool := []
+  for _ in [0:npid] do
+    let b ← bool
+    hs := hs ++ [b]
+  let fl ← rats (npid * ngrid)
+  let no ← nat
+  let mut orders : List (OKey × (Nat → Nat → Rat)) := []
+  for _ in [0:no] do
+    let a ← nat; let b ← nat; let c ← nat; let d ← nat
+    let v ← rats (npid * ngrid)
+    orders := orders ++ [(⟨a, b, c, d⟩, tab npid ngrid v)]
+  let e : PdfEnv := { as, aem, LR, LF, npid, ngrid, has := fun a => hs.getD a false, f := tab npid ngrid fl }
+  pure (showRat (applyPdf orders e))
+
+/-- `tar n {x q2 nf|- y|- norders {a b c d vid eid}}`: layout written by `dump_tar` for one
+observable with `n` results (`n = -1`: None) and what `load_tar` makes of it -/
+def rdTar : RdM String := do
+  let n ← int
+  if n < 0 then
+    let t : Ser.TObs Rat Nat := Ser.dumpTarObs (.none)
+    match t with
+    | .none => pure "none # none"
+    | _ => pure "?"
+  else
+  let mut rs : List (Ser.Res Rat Nat) := []
+  for _ in [0:n.toNat] do
+    let x ← rat; let q2 ← rat; let nf ← optNat
+    let yt ← tok
+    let y ← if yt == "-" then pure none else do
+      let r ← (parseRat? yt : Option Rat)
+      pure (some r)
+    let no ← nat
+    let mut os : List (OKey × Nat × Nat) := []
+    for _ in [0:no] do
+      let a ← nat; let b ← nat; let c ← nat; let d ← nat; let v ← nat; let e ← nat
+      os := os ++ [(⟨a, b, c, d⟩, v, e)]
+    rs := rs ++ [{ x, q2, nf, y, orders := os }]
+  let showON : Option Nat → String := fun o => match o with | none => "-" | some k => toString k
+  let showL {α} (f : α → String) (l : List α) : String := "[" ++ ",".intercalate (l.map f) ++ "]"
+  let t := Ser.dumpTarObs (.list rs)
+  let dumped := match t with
+    | .none => "none"
+    | .empty => "empty"
+    | .data orders xs q2s nfs ys values errors =>
+      "orders=" ++ showL (showL toString) orders ++ "|x=" ++ showL showRat xs ++ "|Q2=" ++ showL showRat q2s
+        ++ "|nf=" ++ showL showON nfs ++ "|y=" ++ (match ys with | none => "-" | some l => showL showRat l)
+        ++ "|values=" ++ showL (showL toString) values ++ "|errors=" ++ showL (showL toString) errors
+  let back := Ser.loadTarObs t
+  let showRes (r : Ser.Res Rat Nat) : String :=
+    s!"{showRat r.x};{showRat r.q2};{showON r.nf};" ++ (match r.y with | none => "-" | some v => showRat v) ++ ";" ++
+      showL (fun (o : OKey × Nat × Nat) => s!"{o.1.as}.{o.1.aem}.{o.1.lnR}.{o.1.lnF}:{o.2.1}:{o.2.2}") r.orders
+  let loaded := match back with
+    | .none => "none"
+    | .list l => showL showRes l
+  pure (dumped ++ " # " ++ loaded)
+
 def showPMap (w : PMap) : String :=
   " ".intercalate (flavorBasisPids.map fun p => showRat (w p))
 
@@ -210,6 +274,8 @@ def handle (op : String) : RdM String := do
       let mn ← rat; let m2w ← rat; let gf ← rat; let pi ← rat
       let (a, b, c) := xsCoeffs kind y x q2 { projectilePID := pid, mn, m2w, gf, pi }
       pure s!"{showRat a} {showRat b} {showRat c}"
+  | "tar" => rdTar
+  | "applypdf" => rdApplyPdf
   | "sv" => rdSv
   | "target" => do   -- update_target table
       let t ← tok
